@@ -219,6 +219,31 @@ def r103(ctx) -> None:
                 f'selected.messages.get_*(sequence_set)',
                 f'{why}: the command acts on messages other than those its '
                 f'sequence set addresses in the session view')
+        if name == 'update_flags':
+            # STORE reaches the backend for EVERY addressed message: FLAGS
+            # () / FLAGS (\Recent) in replace mode clears the flags
+            cfg = cfg_of(f)
+            ups = cfg.find(lambda n: any(call_name(c) == 'update'
+                                         and txt(c.func.value) == 'mbx'
+                                         for c in n.calls()))
+            cond = []
+            for u in ups:
+                for t in cfg.nodes:
+                    if t.kind == 'test' and isinstance(t.stmt, (ast.If,)) \
+                            and (cfg.controlled_by(u, t, 't')
+                                 or cfg.controlled_by(u, t, 'f')):
+                        inside = any(any(t.stmt is x for x in ast.walk(l))
+                                     for l in loops)
+                        if inside:
+                            cond.append(txt(t.stmt.test))
+            R.check(bool(ups) and not cond, f, f.node,
+                    'update_flags: mbx.update() runs for every addressed '
+                    'message',
+                    f'the backend update is skipped when `{cond}`: in '
+                    f'replace mode an empty permitted set MEANS "clear all '
+                    f'flags" — STORE n FLAGS () / FLAGS (\\Recent) answers '
+                    f'OK and leaves the old flags, so a message whose '
+                    f'\\Deleted was "cleared" is still expunged')
 
 
 def r104(ctx) -> None:
